@@ -254,7 +254,7 @@ func main() {
 	meta := hx.NewMeta("h_conv", args.Seed, args.Tier)
 	meta.Rule = "carrier types x contents x sizes (0,1,1023/1024/1025,2048,65536+-1,70000) x reader behaviours (short reads, empty reads, data with EOF, failure) through headHandler on sync and async channels and through ToBytes/ToReader/CountOf/ByteReader/StealBytes; non-trivial = size at a chunk boundary or a fragmenting/EOF-carrying reader or a multi-step WriterTo; distinct = distinct message specification"
 	var hcs, ccs []string
-	nh := hx.Pick3(args.Tier, 300, 5000, 10000)
+	nh := hx.Pick3(args.Tier, 300, 2500, 10000)
 	allKinds := []string{"bytes", "vec", "buffer", "string", "bytesreader", "stringsreader", "writerto", "reader", "reader", "reader", "other"}
 
 	runHead := func(m mspec, async bool, id int) {
@@ -398,7 +398,7 @@ func main() {
 	}
 
 	// ---- C16 text codec through real frame codecs: write string, frame, re-fragment, decode, read ----
-	ntext := hx.Pick3(args.Tier, 150, 2500, 5000)
+	ntext := hx.Pick3(args.Tier, 150, 1500, 5000)
 	for i := 0; i < ntext; i++ {
 		s := textSample(rng, meta)
 		got, ok := textRoundTrip(rng, meta, s)
@@ -409,7 +409,7 @@ func main() {
 		}
 	}
 
-	jcs := jsonPart(rng, meta, hx.Pick3(args.Tier, 200, 3000, 6000))
+	jcs := jsonPart(rng, meta, hx.Pick3(args.Tier, 200, 2000, 6000))
 
 	if args.Out != "" && args.Out != os.DevNull {
 		var sb strings.Builder
